@@ -24,7 +24,6 @@ import (
 	"go.uber.org/nilaway/annotation"
 	"go.uber.org/nilaway/config"
 	"go.uber.org/nilaway/util/analysishelper"
-	"go.uber.org/nilaway/util/asthelper"
 	"go.uber.org/nilaway/util/orderedmap"
 	"go.uber.org/nilaway/util/typeshelper"
 )
@@ -146,26 +145,30 @@ func (a *Affiliation) computeTriggersForCastingSites(pass *analysishelper.Enhanc
 					}
 
 					// e.g., func foo(i I), foo(&S{})
-					if ident := asthelper.FuncIdentFromCallExpr(node); ident != nil {
-						if declObj := pass.TypesInfo.Uses[ident]; declObj != nil {
-							if fdecl, ok := declObj.(*types.Func); ok {
-								fsig := fdecl.Type().(*types.Signature)
-								numParams := fsig.Params().Len()
-								for i := 0; i < len(node.Args); i++ {
-									var lhsType types.Type // receiver param of method declaration
-									if fsig.Variadic() && i >= numParams-1 && !node.Ellipsis.IsValid() {
-										// e.g., func foo(is ...I), foo(&S{}, &T{}): every argument passed for the variadic
-										// parameter is converted to its element type `I` (not to its declared type `[]I`)
-										if variadicType, ok := fsig.Params().At(numParams - 1).Type().(*types.Slice); ok {
-											lhsType = variadicType.Elem()
-										}
-									} else if i < numParams {
-										lhsType = fsig.Params().At(i).Type()
-									}
-									rhsType := pass.TypesInfo.TypeOf(node.Args[i]) // caller param
-									appendTypeToTypeTriggers(lhsType, rhsType)
+					// The parameter types are taken from the type of the callee expression (rather than from
+					// the declaration of a named callee), such that the arguments are also matched correctly if
+					// the callee is a function value (e.g., `f := foo; f(&S{})`), a method expression, whose
+					// first argument is the receiver (e.g., `T.foo(t, &S{})`), or an instantiated generic
+					// function (e.g., `id[I](&S{})`, whose parameter is of type `I` rather than `T`).
+					var fsig *types.Signature
+					if tv, ok := pass.TypesInfo.Types[node.Fun]; ok && tv.IsValue() && tv.Type != nil {
+						fsig, _ = tv.Type.Underlying().(*types.Signature)
+					}
+					if fsig != nil {
+						numParams := fsig.Params().Len()
+						for i := 0; i < len(node.Args); i++ {
+							var lhsType types.Type // receiver param of method declaration
+							if fsig.Variadic() && i >= numParams-1 && !node.Ellipsis.IsValid() {
+								// e.g., func foo(is ...I), foo(&S{}, &T{}): every argument passed for the variadic
+								// parameter is converted to its element type `I` (not to its declared type `[]I`)
+								if variadicType, ok := fsig.Params().At(numParams - 1).Type().(*types.Slice); ok {
+									lhsType = variadicType.Elem()
 								}
+							} else if i < numParams {
+								lhsType = fsig.Params().At(i).Type()
 							}
+							rhsType := pass.TypesInfo.TypeOf(node.Args[i]) // caller param
+							appendTypeToTypeTriggers(lhsType, rhsType)
 						}
 					}
 
